@@ -105,6 +105,69 @@ func genC39(g *gen) {
 		})
 		ownFromCounter = inc && use
 	}
+	// the 'failed to forward' reply (and the other error replies to the requester)
+	// carries the requester's id: every sendControlResponse in handleControlRequest
+	// passes req.RequestID
+	repliesUnderRequesterID, nReplies := true, 0
+	if fd := findFunc(f, "Agent", "handleControlRequest"); fd != nil {
+		ast.Inspect(fd, func(n ast.Node) bool {
+			if call, ok := n.(*ast.CallExpr); ok && strings.HasSuffix(src(call.Fun), ".sendControlResponse") && len(call.Args) >= 2 {
+				nReplies++
+				if src(call.Args[0]) != "peerID" || src(call.Args[1]) != "req.RequestID" {
+					repliesUnderRequesterID = false
+				}
+			}
+			return true
+		})
+	}
+	g.line("Definition gen_replies_to_requester_use_its_id : bool := %s.", coqBool(repliesUnderRequesterID && nReplies >= 4))
+
+	// the encoders of the control frames return buffers nobody else can write to:
+	// a fresh bufferWriter per call, no pool, no package-level buffer
+	pf := parseFile("internal/protocol/frame.go")
+	freshEnc := func(recv string) bool {
+		fd := findFunc(pf, recv, "Encode")
+		if fd == nil || fd.Body == nil {
+			return false
+		}
+		body := src(fd.Body)
+		if strings.Contains(body, ".Get()") || strings.Contains(body, ".Put(") || strings.Contains(body, "Pool") {
+			return false
+		}
+		fresh, ret := false, false
+		ast.Inspect(fd.Body, func(n ast.Node) bool {
+			switch x := n.(type) {
+			case *ast.AssignStmt:
+				if len(x.Lhs) == 1 && len(x.Rhs) == 1 && src(x.Lhs[0]) == "w" && strings.HasPrefix(src(x.Rhs[0]), "newBufferWriter(") && x.Tok.String() == ":=" {
+					fresh = true
+				}
+			case *ast.ReturnStmt:
+				if len(x.Results) == 1 && src(x.Results[0]) == "w.bytes()" {
+					ret = true
+				}
+			}
+			return true
+		})
+		return fresh && ret
+	}
+	newWriterFresh := false
+	if fd := findFunc(pf, "", "newBufferWriter"); fd != nil && fd.Body != nil && len(fd.Body.List) == 1 {
+		t := strings.NewReplacer(" ", "", "\t", "").Replace(src(fd.Body.List[0]))
+		newWriterFresh = t == "return&bufferWriter{buf:make([]byte,size)}"
+	}
+	poolInProtocol := false
+	for _, pfile := range parseDir("internal/protocol") {
+		ast.Inspect(pfile, func(n ast.Node) bool {
+			if sel, ok := n.(*ast.SelectorExpr); ok && src(sel) == "sync.Pool" {
+				poolInProtocol = true
+			}
+			return true
+		})
+	}
+	g.line("Definition gen_control_request_encode_returns_fresh_buffer : bool := %s.", coqBool(freshEnc("ControlRequest") && newWriterFresh))
+	g.line("Definition gen_control_response_encode_returns_fresh_buffer : bool := %s.", coqBool(freshEnc("ControlResponse") && newWriterFresh))
+	g.line("Definition gen_protocol_package_has_no_buffer_pool : bool := %s.", coqBool(!poolInProtocol))
+
 	if !(fwdIDFromCounter && storeUnderFwdID && keepsOrig && fwdReqUsesFwdID && failDeletesFwdID && restores && ownFromCounter) {
 		g.note("control request forwarding pattern not (fully) recognised")
 	}
